@@ -20,6 +20,9 @@ type opDef struct {
 	// maxLenQ / maxLenT (0 = no limit): the operation is only applied when the
 	// history, this operation included, is at most that long (quick / thorough)
 	maxLenQ, maxLenT int
+	// minLen (0 = no limit): the operation is only applied when the history,
+	// this operation included, is at least that long
+	minLen int
 	// later: after this operation, each of laterOps is additionally applied as
 	// a SEPARATE later operation (history + this + later) and checked in full
 	later bool
@@ -40,7 +43,7 @@ func (o *opDef) allowedAt(length int, thorough bool) bool {
 	if thorough {
 		m = o.maxLenT
 	}
-	return m == 0 || length <= m
+	return (m == 0 || length <= m) && length >= o.minLen
 }
 
 // Watched names: a (data), f (function), m (macro).  None of them is a name of
@@ -101,7 +104,7 @@ func buildAlphabet() []*opDef {
 
 		// --- the language package changes before a package is created
 		{Name: "load:lisp:set-a=14:export-a", Class: "language-package-export", form: nCall("load-string",
-			nP(inPkg("lisp"), setq("a", nI(14)), nCall("export", nQS("a")))), tier: 1},
+			nP(inPkg("lisp"), setq("a", nI(14)), nCall("export", nQS("a")))), maxLenQ: 1},
 		{Name: "load:lisp:export-a", Class: "language-package-export", form: nCall("load-string",
 			nP(inPkg("lisp"), nCall("export", nQS("a"))))},
 		{Name: "set:lisp:a=15", Class: "set-qualified-language", form: setq("lisp:a", nI(15)), tier: 1},
@@ -149,6 +152,7 @@ func buildAlphabet() []*opDef {
 	}
 	ops = append(ops, shadowOps()...)
 	ops = append(ops, errorCallOps()...)
+	ops = append(ops, rebindOps()...)
 	for _, o := range ops {
 		if o.form != nil {
 			o.src = o.form.render()
@@ -211,6 +215,58 @@ func shadowOps() []*opDef {
 				form: nCall(P+":g", nI(10)), prog: true, tier: tP},
 		)
 	}
+	return ops
+}
+
+// (The new values are the ones the alphabet already uses — 4 for set!, the
+// writer body for the redefined f — so these shortcuts reach states the search
+// has anyway, only sooner.)
+//
+// rebindOps: every way of CHANGING an existing package-level binding of an
+// exporting package P without leaving the current package (so that an import
+// can follow within a short history), and imports from an existing and from a
+// brand-new package.  The model's rule: an import copies the values current
+// at that moment, however they came to be current.
+func rebindOps() []*opDef {
+	var ops []*opDef
+	empty := nL()
+	inP := func(P string, forms ...*node) *node {
+		return nCall("load-string", nP(append([]*node{inPkg(P)}, forms...)...))
+	}
+	for _, P := range []string{"p", "q", "lisp"} {
+		tier := 0
+		if P == "q" {
+			tier = 1
+		}
+		// set! at top level of P (the Package.Update path)
+		ops = append(ops, &opDef{Name: "load:" + P + ":set!-a=4", Class: "rebind:set!-toplevel",
+			form: inP(P, nCall("set!", nS("a"), nI(4))), tier: tier, maxLenQ: 3, maxLenT: 4})
+		// set! inside a function of P that is called from another package
+		t2 := tier
+		if P == "lisp" {
+			t2 = 1
+		}
+		ops = append(ops, &opDef{Name: "lambda-made-in:" + P + ":set!-a=4", Class: "rebind:set!-in-function",
+			form: nL(inP(P, nL(nS("lambda"), empty, nCall("set!", nS("a"), nI(4))))), tier: t2, maxLenQ: 3, maxLenT: 4})
+		// set at top level of P
+		ops = append(ops, &opDef{Name: "load:" + P + ":set-a=2", Class: "rebind:set-toplevel",
+			form: inP(P, setq("a", nI(2))), tier: 1, maxLenT: 4})
+		if P != "lisp" {
+			// redefinition of the exported function
+			ops = append(ops, &opDef{Name: "load:" + P + ":redefun-f", Class: "rebind:defun",
+				form: inP(P, nCall("defun", nS("f"), empty, setq("a", nI(5)))), tier: tier, maxLenQ: 3, maxLenT: 4})
+		}
+	}
+	ops = append(ops,
+		&opDef{Name: "load:p:export-m:redefmacro-m", Class: "rebind:defmacro",
+			form: inP("p", nCall("export", nQS("m")), nCall("defmacro", nS("m"), empty, nQS("f"))), tier: 1, maxLenT: 4},
+		&opDef{Name: "defun:f-set!s-a=23", Class: "defun", form: nCall("defun", nS("f"), empty, nCall("set!", nS("a"), nI(23))), tier: 1, maxLenT: 4},
+		// imports: from a package that may or may not exist yet, and an explicit
+		// re-import of the language package
+		&opDef{Name: "load:q:use-package:p", Class: "import-from-other-package", form: inP("q", nCall("use-package", nQS("p"))), minLen: 3},
+		&opDef{Name: "load:p:use-package:q", Class: "import-from-other-package", form: inP("p", nCall("use-package", nQS("q"))), tier: 1, minLen: 3},
+		&opDef{Name: "use-package:lisp", Class: "use-package-language", form: nCall("use-package", nQS("lisp")), minLen: 3},
+	)
 	return ops
 }
 
